@@ -256,7 +256,7 @@ func runDagCase(c *kit.Ctx, name string, g *gspec, impl dagImpl, variant string,
 					return
 				}
 				if isImp != !known[g.ids[x.v]] {
-					c.Violate(key("addedge-implied-flag-wrong"), name, fmt.Sprintf("AddEdge(%s -> %s) reported implied=%v but the target was %s", g.ids[x.u], g.ids[x.v], isImp, map[bool]string{true: "already in the graph", false: "not in the graph"}[known[g.ids[x.v]]]), wit(nil))
+					violate(c, key("addedge-implied-flag-wrong"), name, fmt.Sprintf("AddEdge(%s -> %s) reported implied=%v but the target was %s", g.ids[x.u], g.ids[x.v], isImp, map[bool]string{true: "already in the graph", false: "not in the graph"}[known[g.ids[x.v]]]), wit(nil))
 				}
 				if isImp {
 					implied = append(implied, g.ids[x.v])
@@ -268,11 +268,11 @@ func runDagCase(c *kit.Ctx, name string, g *gspec, impl dagImpl, variant string,
 	})
 	if perr != nil {
 		c.Count("dag_panics", 1)
-		c.Violate(key("build-panics"), name, "building the graph panicked: "+firstLine(perr.Error()), wit(nil))
+		violate(c, key("build-panics"), name, "building the graph panicked: "+firstLine(perr.Error()), wit(nil))
 		return
 	}
 	if initErr != nil {
-		c.Violate(key("init-error"), name, "building a graph with unique node ids failed: "+initErr.Error(), wit(nil))
+		violate(c, key("init-error"), name, "building a graph with unique node ids failed: "+initErr.Error(), wit(nil))
 		return
 	}
 
@@ -295,7 +295,7 @@ func runDagCase(c *kit.Ctx, name string, g *gspec, impl dagImpl, variant string,
 		}
 	}
 	if !sameSet(implied, wantImp) {
-		c.Violate(key("init-implied-wrong"), name, fmt.Sprintf("implied nodes %v, reference %v", uniq(implied), sortedKeys(wantImp)), wit(nil))
+		violate(c, key("init-implied-wrong"), name, fmt.Sprintf("implied nodes %v, reference %v", uniq(implied), sortedKeys(wantImp)), wit(nil))
 	}
 	if len(uniq(implied)) != len(implied) {
 		c.Count("dag_implied_reported_more_than_once", 1)
@@ -306,22 +306,22 @@ func runDagCase(c *kit.Ctx, name string, g *gspec, impl dagImpl, variant string,
 		for i, id := range g.ids {
 			in := ref.all[id]
 			if d.NodeExists(id) != in {
-				c.Violate(key("membership-wrong"), name, fmt.Sprintf("NodeExists(%s)=%v, reference %v", id, !in, in), wit(nil))
+				violate(c, key("membership-wrong"), name, fmt.Sprintf("NodeExists(%s)=%v, reference %v", id, !in, in), wit(nil))
 			}
 			_, gerr := d.GetNode(id)
 			if (gerr == nil) != in {
-				c.Violate(key("membership-wrong"), name, fmt.Sprintf("GetNode(%s) err=%v, reference member=%v", id, gerr, in), wit(nil))
+				violate(c, key("membership-wrong"), name, fmt.Sprintf("GetNode(%s) err=%v, reference member=%v", id, gerr, in), wit(nil))
 			}
 			nb, nerr := d.NodeNeighbors(id)
 			if (nerr == nil) != in {
-				c.Violate(key("membership-wrong"), name, fmt.Sprintf("NodeNeighbors(%s) err=%v, reference member=%v", id, nerr, in), wit(nil))
+				violate(c, key("membership-wrong"), name, fmt.Sprintf("NodeNeighbors(%s) err=%v, reference member=%v", id, nerr, in), wit(nil))
 			} else if in {
 				want := map[string]bool{}
 				for _, s := range ref.succ(id) {
 					want[s] = true
 				}
 				if !sameSet(idsOf(nb), want) {
-					c.Violate(key("neighbors-wrong"), name, fmt.Sprintf("NodeNeighbors(%s)=%v, reference %v", id, idsOf(nb), sortedKeys(want)), wit(nil))
+					violate(c, key("neighbors-wrong"), name, fmt.Sprintf("NodeNeighbors(%s)=%v, reference %v", id, idsOf(nb), sortedKeys(want)), wit(nil))
 				}
 			}
 			_ = i
@@ -343,7 +343,7 @@ func runDagCase(c *kit.Ctx, name string, g *gspec, impl dagImpl, variant string,
 				continue
 			}
 			if !sameSet(n.GetParentConstraints(), want) {
-				c.Violate(key("parent-constraints-wrong"), name, fmt.Sprintf("node %s parent constraints %v, reference %v", g.ids[j], n.GetParentConstraints(), sortedKeys(want)), wit(nil))
+				violate(c, key("parent-constraints-wrong"), name, fmt.Sprintf("node %s parent constraints %v, reference %v", g.ids[j], n.GetParentConstraints(), sortedKeys(want)), wit(nil))
 			}
 		}
 	}
@@ -354,23 +354,23 @@ func runDagCase(c *kit.Ctx, name string, g *gspec, impl dagImpl, variant string,
 		var serr error
 		if perr := kit.Try(func() { order, serr = d.Sort() }); perr != nil {
 			c.Count("dag_panics", 1)
-			c.Violate(key("sort-panics"), name, "Sort panicked: "+firstLine(perr.Error()), wit(nil))
+			violate(c, key("sort-panics"), name, "Sort panicked: "+firstLine(perr.Error()), wit(nil))
 			break
 		}
 		if cyc {
 			if serr == nil {
-				c.Violate(key("sort-missed-cycle"), name, fmt.Sprintf("graph has a cycle but Sort returned %v without error", order), wit(nil))
+				violate(c, key("sort-missed-cycle"), name, fmt.Sprintf("graph has a cycle but Sort returned %v without error", order), wit(nil))
 				break
 			}
 			c.Count("dag_sort_cycle_errors", 1)
 			continue
 		}
 		if serr != nil {
-			c.Violate(key("sort-false-cycle"), name, "acyclic graph but Sort failed: "+serr.Error(), wit(nil))
+			violate(c, key("sort-false-cycle"), name, "acyclic graph but Sort failed: "+serr.Error(), wit(nil))
 			break
 		}
 		if p := ref.orderProblem(order); p != "" {
-			c.Violate(key("sort-order-invalid"), name, fmt.Sprintf("Sort returned %v: %s", order, p), wit(nil))
+			violate(c, key("sort-order-invalid"), name, fmt.Sprintf("Sort returned %v: %s", order, p), wit(nil))
 			break
 		}
 		c.Count("dag_sort_orders_checked", 1)
@@ -382,30 +382,30 @@ func runDagCase(c *kit.Ctx, name string, g *gspec, impl dagImpl, variant string,
 		var terr error
 		if perr := kit.Try(func() { tree, terr = d.TraceNode(id) }); perr != nil {
 			c.Count("dag_panics", 1)
-			c.Violate(key("trace-panics"), name, "TraceNode panicked: "+firstLine(perr.Error()), wit(map[string]any{"trace": id}))
+			violate(c, key("trace-panics"), name, "TraceNode panicked: "+firstLine(perr.Error()), wit(map[string]any{"trace": id}))
 			continue
 		}
 		if !ref.all[id] {
 			if terr == nil {
-				c.Violate(key("trace-unknown-node-no-error"), name, fmt.Sprintf("TraceNode(%s) of a node that is not in the graph returned %d nodes and no error", id, len(tree)), wit(nil))
+				violate(c, key("trace-unknown-node-no-error"), name, fmt.Sprintf("TraceNode(%s) of a node that is not in the graph returned %d nodes and no error", id, len(tree)), wit(nil))
 			}
 			continue
 		}
 		if terr != nil {
-			c.Violate(key("trace-error"), name, fmt.Sprintf("TraceNode(%s) failed: %v", id, terr), wit(nil))
+			violate(c, key("trace-error"), name, fmt.Sprintf("TraceNode(%s) failed: %v", id, terr), wit(nil))
 			continue
 		}
 		got := make([]string, 0, len(tree))
 		for k, n := range tree {
 			got = append(got, k)
 			if n == nil || n.Identifier() != k {
-				c.Violate(key("trace-key-mismatch"), name, fmt.Sprintf("TraceNode(%s): key %q maps to a different node", id, k), wit(nil))
+				violate(c, key("trace-key-mismatch"), name, fmt.Sprintf("TraceNode(%s): key %q maps to a different node", id, k), wit(nil))
 			}
 		}
 		sort.Strings(got)
 		want := ref.reach(id)
 		if !sameSet(got, want) {
-			c.Violate(key("trace-closure-wrong"), name, fmt.Sprintf("TraceNode(%s)=%v, reference transitive closure %v", id, got, sortedKeys(want)), wit(map[string]any{"trace": id}))
+			violate(c, key("trace-closure-wrong"), name, fmt.Sprintf("TraceNode(%s)=%v, reference transitive closure %v", id, got, sortedKeys(want)), wit(map[string]any{"trace": id}))
 		}
 		c.Count("dag_traces_checked", 1)
 	}
